@@ -191,7 +191,247 @@ def only_feeds_higher_rows(fn, node):
     return seen_use and sinks_ok
 
 
-def report(repo, R, module_prefixes, rule="PITFALL", kinds=None, single_row_tables=False):
+def undefined_names(f):
+    """Names a function reads that nothing binds: not a parameter, not assigned / imported / looped over / caught anywhere in the
+    function or an enclosing function, not a module-level name, not a builtin.  Reading one raises NameError - on whatever input
+    reaches the statement (typically a branch the tests do not exercise).  -> list of (node, name)"""
+    import builtins
+    fn = f.node
+    bound = set(dir(builtins))
+    mod = f.module
+    # module-level bindings
+    for st in ast.walk(mod.tree) if hasattr(mod, "tree") else []:
+        pass
+    bound |= set(getattr(mod, "globals", {}) or {})
+    tree = getattr(mod, "tree", None)
+    if tree is not None:
+        for st in tree.body:
+            for n in ast.walk(st) if not isinstance(st, (ast.FunctionDef, ast.ClassDef, ast.AsyncFunctionDef)) else [st]:
+                if isinstance(n, (ast.FunctionDef, ast.ClassDef, ast.AsyncFunctionDef)):
+                    bound.add(n.name)
+                elif isinstance(n, ast.Name) and isinstance(n.ctx, ast.Store):
+                    bound.add(n.id)
+                elif isinstance(n, (ast.Import, ast.ImportFrom)):
+                    for a in n.names:
+                        bound.add((a.asname or a.name).split(".")[0])
+    else:
+        return []
+
+    def binds(node):
+        out = set()
+        a = node.args
+        for x in a.posonlyargs + a.args + a.kwonlyargs:
+            out.add(x.arg)
+        if a.vararg:
+            out.add(a.vararg.arg)
+        if a.kwarg:
+            out.add(a.kwarg.arg)
+        for n in ast.walk(node):
+            if isinstance(n, ast.Name) and isinstance(n.ctx, (ast.Store, ast.Del)):
+                out.add(n.id)
+            elif isinstance(n, (ast.FunctionDef, ast.ClassDef, ast.AsyncFunctionDef)) and n is not node:
+                out.add(n.name)
+            elif isinstance(n, (ast.Import, ast.ImportFrom)):
+                for al in n.names:
+                    out.add((al.asname or al.name).split(".")[0])
+            elif isinstance(n, ast.ExceptHandler) and n.name:
+                out.add(n.name)
+            elif isinstance(n, (ast.Global, ast.Nonlocal)):
+                out.update(n.names)
+        return out
+    # enclosing functions / classes of f (closures; a class body name is visible to nested defs only as attribute, ignore)
+    chain = []
+    for n in ast.walk(tree):
+        if isinstance(n, (ast.FunctionDef, ast.AsyncFunctionDef)) and n is not fn and any(m is fn for m in ast.walk(n)):
+            chain.append(n)
+    for n in chain:
+        bound |= binds(n)
+    bound |= binds(fn)
+    out = []
+    seen = set()
+    for n in walk_no_nested(fn):
+        if isinstance(n, ast.Name) and isinstance(n.ctx, ast.Load) and n.id not in bound and n.id not in seen:
+            seen.add(n.id)
+            out.append((n, n.id))
+    return out
+
+
+def possibly_unbound(f):
+    """Local names that are read on some path before any statement has assigned them (definite-assignment analysis over the statement
+    structure; a loop body is taken to run at least once, a branch that ends in return/raise does not constrain what follows).
+    -> list of (node, name)"""
+    fn = f.node
+    local = set()
+    for n in ast.walk(fn):
+        if isinstance(n, ast.Name) and isinstance(n.ctx, ast.Store):
+            local.add(n.id)
+    params = {x.arg for x in fn.args.posonlyargs + fn.args.args + fn.args.kwonlyargs}
+    if fn.args.vararg:
+        params.add(fn.args.vararg.arg)
+    if fn.args.kwarg:
+        params.add(fn.args.kwarg.arg)
+    for n in ast.walk(fn):
+        if isinstance(n, (ast.Global, ast.Nonlocal)):
+            local -= set(n.names)
+    out = []
+    seen = set()
+    TOP = None  # "every name" (after a statement that does not fall through)
+    guards = []  # active (condition text, polarity) pairs
+    cond_defs = {}  # name -> list of guard sets under which it was assigned
+    # a condition may be re-tested later (`if t == "spherical": T = ...` ... `if t == "spherical": use T`): the second test implies the
+    # first as long as nothing it mentions is reassigned in between - only conditions over names that are bound once (parameters, loop
+    # targets of an enclosing loop, single assignments) are used for that
+    assign_count = {}
+    for n in ast.walk(fn):
+        if isinstance(n, ast.Name) and isinstance(n.ctx, ast.Store):
+            assign_count[n.id] = assign_count.get(n.id, 0) + 1
+
+    def stable(test):
+        return all(assign_count.get(m.id, 0) <= 1 for m in ast.walk(test) if isinstance(m, ast.Name))
+
+    def covered(name):
+        act = set(guards)
+        return any(g <= act for g in cond_defs.get(name, ()))
+
+    def uses(node, defs):
+        # loads inside an expression / simple statement, nested scopes excluded (their reads happen later)
+        stack = [node]
+        while stack:
+            x = stack.pop()
+            if isinstance(x, (ast.FunctionDef, ast.AsyncFunctionDef, ast.Lambda, ast.ClassDef)) and x is not node:
+                continue
+            if isinstance(x, (ast.ListComp, ast.SetComp, ast.DictComp, ast.GeneratorExp)):
+                # comprehension targets are bound inside
+                inner = set()
+                for g in x.generators:
+                    inner |= {m.id for m in ast.walk(g.target) if isinstance(m, ast.Name)}
+                sub_defs = defs if defs is TOP else defs | inner
+                for ch in ast.iter_child_nodes(x):
+                    uses(ch, sub_defs)
+                continue
+            if isinstance(x, ast.Name) and isinstance(x.ctx, ast.Load) and x.id in local and x.id not in params:
+                if defs is not TOP and x.id not in defs and not covered(x.id) and (x.id, x.lineno) not in seen:
+                    seen.add((x.id, x.lineno))
+                    out.append((x, x.id))
+            stack.extend(ast.iter_child_nodes(x))
+
+    def targets(t):
+        return {m.id for m in ast.walk(t) if isinstance(m, ast.Name) and isinstance(m.ctx, ast.Store)}
+
+    def meet(a, b):
+        if a is TOP:
+            return b
+        if b is TOP:
+            return a
+        return a & b
+
+    def block(stmts, defs):
+        for st in stmts:
+            if defs is TOP:
+                return TOP
+            defs = stmt(st, defs)
+        return defs
+
+    def stmt(st, defs):
+        if isinstance(st, (ast.Return, ast.Raise)):
+            if getattr(st, "value", None) is not None:
+                uses(st.value, defs)
+            if isinstance(st, ast.Raise) and st.exc is not None:
+                uses(st.exc, defs)
+            return TOP
+        if isinstance(st, (ast.Continue, ast.Break)):
+            return TOP
+        if isinstance(st, ast.Assign):
+            uses(st.value, defs)
+            for t in st.targets:
+                for sub in ast.walk(t):
+                    if isinstance(sub, (ast.Subscript, ast.Attribute)):
+                        uses(sub.value, defs)
+                        if isinstance(sub, ast.Subscript):
+                            uses(sub.slice, defs)
+            new = set(defs)
+            for t in st.targets:
+                new |= targets(t)
+            return new
+        if isinstance(st, ast.AugAssign):
+            uses(st.value, defs)
+            if isinstance(st.target, ast.Name):
+                if st.target.id in local and st.target.id not in params and st.target.id not in defs and not covered(st.target.id) \
+                        and (st.target.id, st.lineno) not in seen:
+                    seen.add((st.target.id, st.lineno))
+                    out.append((st.target, st.target.id))
+            else:
+                uses(st.target, defs)
+            return set(defs) | targets(st.target)
+        if isinstance(st, ast.AnnAssign):
+            if st.value is not None:
+                uses(st.value, defs)
+                return set(defs) | targets(st.target)
+            return defs
+        if isinstance(st, ast.If):
+            uses(st.test, defs)
+            txt = ast.unparse(st.test)
+            ok_guard = stable(st.test)
+            if ok_guard:
+                guards.append((txt, True))
+            a = block(st.body, set(defs))
+            if ok_guard:
+                guards.pop()
+                guards.append((txt, False))
+            b = block(st.orelse, set(defs))
+            if ok_guard:
+                guards.pop()
+                # names assigned on one side only stay usable wherever the same test is known to have the same outcome
+                for side, pol in ((a, True), (b, False)):
+                    other = b if pol else a
+                    if side is not TOP:
+                        for nm in side - (set() if other is TOP else other) - set(defs):
+                            cond_defs.setdefault(nm, []).append(frozenset(guards) | {(txt, pol)})
+            return meet(a, b)
+        if isinstance(st, (ast.For, ast.AsyncFor)):
+            uses(st.iter, defs)
+            d2 = set(defs) | targets(st.target)
+            a = block(st.body, d2)
+            res = d2 if a is TOP else a
+            if st.orelse:
+                res = block(st.orelse, set(res))
+            return res
+        if isinstance(st, ast.While):
+            uses(st.test, defs)
+            a = block(st.body, set(defs))
+            return set(defs) if a is TOP else a
+        if isinstance(st, (ast.With, ast.AsyncWith)):
+            d2 = set(defs)
+            for it in st.items:
+                uses(it.context_expr, d2)
+                if it.optional_vars is not None:
+                    d2 |= targets(it.optional_vars)
+            return block(st.body, d2)
+        if isinstance(st, ast.Try):
+            a = block(st.body, set(defs))
+            if st.orelse and a is not TOP:
+                a = block(st.orelse, set(a))
+            res = a
+            for h in st.handlers:
+                d2 = set(defs) | ({h.name} if h.name else set())
+                res = meet(res, block(h.body, d2))
+            if st.finalbody:
+                res = block(st.finalbody, set(defs) if res is TOP else set(res))
+            return res
+        if isinstance(st, (ast.FunctionDef, ast.AsyncFunctionDef, ast.ClassDef)):
+            return set(defs) | {st.name}
+        if isinstance(st, (ast.Import, ast.ImportFrom)):
+            return set(defs) | {(a.asname or a.name).split(".")[0] for a in st.names}
+        if isinstance(st, ast.Delete):
+            return set(defs) - {t.id for t in st.targets if isinstance(t, ast.Name)}
+        for ch in ast.iter_child_nodes(st):
+            uses(ch, defs)
+        return defs
+    block(fn.body, set(params))
+    return out
+
+
+def report(repo, R, module_prefixes, rule="PITFALL", kinds=None, single_row_tables=False, only=None):
     """Scan every function of the named modules; findings are reported under `rule` (only the pattern kinds in `kinds`).
     single_row_tables: the calling property's operator requests recursion tables with one row on their first axis (order 0); a
     geometric comparison that only selects values for the higher rows is then not its concern."""
@@ -199,7 +439,21 @@ def report(repo, R, module_prefixes, rule="PITFALL", kinds=None, single_row_tabl
     for f in repo.all_functions():
         if not any(f.module.name == m or f.module.name.startswith(m + ".") for m in module_prefixes):
             continue
+        if only is not None and not only(f):
+            continue
         n += 1
+        if not f.name.startswith("_") and (kinds is None or "UNDEF" in kinds):
+            from .flow import check_documented_defaults
+            R.rule("DEFAULT", "a default stated in the documentation of a public function is the default of its signature")
+            check_documented_defaults(f, R, "DEFAULT")
+        if kinds is None or "UNDEF" in kinds:
+            for node, name in undefined_names(f):
+                R.fail(rule, f.site, f"UNDEF: {name}", f"[UNDEF] `{name}` is read in {f.name} but nothing binds it (no assignment, parameter, import or "
+                       f"module-level definition): NameError on every input that reaches this statement", where=f.where(node), expected="a binding that reaches the use")
+            for node, name in possibly_unbound(f):
+                R.fail(rule, f.site, f"UNBOUND: {name} (line-independent)", f"[UNDEF] `{name}` is read in {f.name} on a path on which no statement has "
+                       f"assigned it yet (an assignment is missing on one branch): UnboundLocalError there", where=f.where(node),
+                       expected="assigned on every path that reaches the use")
         for kind, node, msg in scan_function(f):
             if kinds is not None and kind not in kinds:
                 continue
